@@ -736,7 +736,7 @@ def generate_ofm_scaling_for_pooling(emit: CommandStreamEmitter, pool_op: NpuPoo
         # Normally the scale is maximised, to get maximum precision, which means that
         # if rescale != 1, scale need to consider the number of bits needed for rescaling
         if ofm_quant.scale_f32 is not None and ifm_quant.scale_f32 is not None:
-            rescale = ifm_quant.scale_f32 / ofm_quant.scale_f32
+            rescale = np.double(ifm_quant.scale_f32) / np.double(ofm_quant.scale_f32)
             rescale_bits = 0
             if kernel.height == kernel.width == 1:
                 if rescale > 1:
